@@ -155,6 +155,16 @@ CASES = [
     ("benign-corner-factor", ["C18"], "velocity.py", "    prefactor = 4 * plate_speed / (np.pi * (h**2 + v**2) ** 2)", "    r2 = h**2 + v**2\n    prefactor = 4 * plate_speed / (np.pi * r2 * r2)", B),
     ("benign-config-local", ["C19"], "io.py", "    n_provided = len(_params[\"disl_coefficients\"])", "    coeffs = _params[\"disl_coefficients\"]\n    n_provided = len(coeffs)", B),
     ("benign-gbs-where", ["C09", "C01"], "utils.py", "    fractions[mask] = gbs_threshold / n_grains\n", "    fractions[:] = np.where(mask, gbs_threshold / n_grains, fractions)\n", B),
+    ("benign-is-inside-all", ["C18"], "pathlines.py", "    if np.any(np.array(point) < min_coords) or np.any(np.array(point) > max_coords):\n        return False\n    return True", "    p = np.array(point)\n    return bool(np.all(p >= min_coords) and np.all(p <= max_coords))", B),
+    ("benign-ivp-func-else", ["C18"], "pathlines.py", "    if _is_inside(point, min_coords, max_coords):\n        return get_velocity(np.nan, point)\n    return np.zeros_like(point)", "    inside = _is_inside(point, min_coords, max_coords)\n    if not inside:\n        return np.zeros_like(point)\n    return get_velocity(np.nan, point)", B),
+    ("benign-pathline-kwargs-loop", ["C18"], "pathlines.py", "        try:\n            kwargs.pop(key)\n        except KeyError:\n            continue\n        else:\n            _log.warning(\"ignoring illegal keyword argument: %s\", key)", "        if key in kwargs:\n            del kwargs[key]\n            _log.warning(\"ignoring illegal keyword argument: %s\", key)", B),
+    ("benign-scatter-loop", ["C13"], "stats.py", "    scatter[1, 0] = np.sum(orientations[:, row, 0] * orientations[:, row, 1])\n    scatter[2, 0] = np.sum(orientations[:, row, 0] * orientations[:, row, 2])\n    scatter[2, 1] = np.sum(orientations[:, row, 1] * orientations[:, row, 2])",
+     "    for a, b in ((1, 0), (2, 0), (2, 1)):\n        scatter[a, b] = np.sum(orientations[:, row, b] * orientations[:, row, a])", B),
+    ("benign-header-comments-join", ["C16"], "io.py", "        for comment in comments:\n            stream.write(\"# \" + comment + os.linesep)", "        stream.write(\"\".join(\"# \" + comment + os.linesep for comment in comments))", B),
+    ("benign-save-length-check-any", ["C16"], "io.py", "    n_rows = len(data[0])\n    for col in data[1:]:\n        if len(col) != n_rows:\n            raise _err.SCSVError(\n                \"refusing to write data columns of unequal length to SCSV file\"\n            )",
+     "    if len({len(col) for col in data}) > 1:\n        raise _err.SCSVError(\n            \"refusing to write data columns of unequal length to SCSV file\"\n        )", B),
+    ("benign-input-common-get", ["C19"], "io.py", "    try:\n        _input = toml[\"input\"]\n    except KeyError:\n        raise _err.ConfigError(f\"missing [input] section in '{path}'\") from None", "    if \"input\" not in toml:\n        raise _err.ConfigError(f\"missing [input] section in '{path}'\")\n    _input = toml[\"input\"]", B),
+    ("benign-postpaths-loop", ["C19"], "io.py", "    input[\"paths\"] = [np.load(resolve_path(p, path.parent)) for p in input[\"paths\"]]", "    loaded = []\n    for p in input[\"paths\"]:\n        loaded.append(np.load(resolve_path(p, path.parent)))\n    input[\"paths\"] = loaded", B),
     ("benign-voigt-skip-zero", ["C10"], "minerals.py", "            for n in range(n_grains):\n                average_tensors[i] += _tensors.elastic_tensor_to_voigt(\n                    _tensors.rotate(\n                        phase_tensors[mineral.phase],\n                        mineral.orientations[i][n, ...].transpose(),\n                    )\n                    * mineral.fractions[i][n]",
      "            keep = mineral.fractions[i] > 0\n            fractions = mineral.fractions[i][keep]\n            orientations = mineral.orientations[i][keep]\n            for n in range(len(orientations)):\n                average_tensors[i] += _tensors.elastic_tensor_to_voigt(\n                    _tensors.rotate(\n                        phase_tensors[mineral.phase],\n                        orientations[n, ...].transpose(),\n                    )\n                    * fractions[n]", B),
     ("benign-rhs-local-scale", ["C05", "C04"], "minerals.py", "            strain_rate_max = np.abs(la.eigvalsh(strain_rate)).max()", "            eigenvalues = la.eigvalsh(strain_rate)\n            strain_rate_max = np.abs(eigenvalues).max()", B),
